@@ -107,3 +107,23 @@ func SignTxWith(signer Account, accNum, seq uint64, gas uint64, msgs ...sdk.Msg)
 	}
 	return txCfg.TxEncoder()(b.GetTx())
 }
+
+// Query runs an ABCI query (gRPC path, proto-encoded request) against the last committed state, the way an RPC
+// client would while a block is being executed; panics are reported as errors, nothing else is returned.
+func (c *Chain) Query(path string, data []byte) (code uint32, panicked bool) {
+	defer func() {
+		if r := recover(); r != nil {
+			code, panicked = 1, true
+		}
+	}()
+	defer quiet()()
+	res := c.App.Query(abci.RequestQuery{Path: path, Data: data})
+	return res.Code, false
+}
+
+// Check hands raw tx bytes to the mempool check (CheckTx), which works on a state branch of its own.
+func (c *Chain) Check(txBytes []byte) uint32 {
+	defer func() { _ = recover() }()
+	defer quiet()()
+	return c.App.CheckTx(abci.RequestCheckTx{Tx: txBytes, Type: abci.CheckTxType_New}).Code
+}
